@@ -189,6 +189,15 @@ pub fn exec(op: &[&str]) -> String {
                 "count" => c::Count::new(f).command(),
                 "countg1" => c::Count::new(f).group_by(Tag::Album).command(),
                 "countg2" => c::CountGrouped::new(Tag::Album).filter(f).command(),
+                // a filter set twice: the documented behaviour is that the last call wins
+                "list2" => c::List::new(Tag::Album).filter(Filter::tag(Tag::Genre, "overwritten")).filter(f).command(),
+                "listg2" => c::List::new(Tag::Album)
+                    .filter(Filter::tag(Tag::Genre, "overwritten"))
+                    .group_by([Tag::Artist])
+                    .filter(f)
+                    .command(),
+                "countg3" => c::CountGrouped::new(Tag::Album).filter(Filter::tag(Tag::Genre, "overwritten")).filter(f).command(),
+                "countg4" => c::Count::new(Filter::tag(Tag::Genre, "overwritten")).group_by(Tag::Album).filter(f).command(),
                 _ => return "badop".into(),
             };
             let io = Cap { input: Cursor::new(b"OK MPD 0.23.5\n".to_vec()), out: Vec::new() };
@@ -431,7 +440,7 @@ pub fn gen(cfg: &Cfg) -> Vec<String> {
         let t = gen_tree(&mut r, depth, &mut budget, m);
         ops.push(format!("filter.find {t}"));
         // the same filter inside one of the typed commands that carry one
-        let path = *r.pick(&["find", "findw", "list", "listg", "count", "countg1", "countg2"]);
+        let path = *r.pick(&["find", "findw", "list", "listg", "count", "countg1", "countg2", "list2", "listg2", "countg3", "countg4"]);
         ops.push(format!("filter.via {path} {t}"));
     }
     ops
